@@ -147,6 +147,21 @@ def subset_typed_dicts(rnd, n):
     return out
 
 
+def empty_with_dicts(rnd, n):
+    """An EMPTY dict at a position that also sees small str-keyed dicts: the empty dict is never a TypedDict, and it must
+    stay admitted by whatever the merge produces"""
+    out = []
+    for _ in range(n):
+        k = rnd.choice([1, 2, 3, 10])
+        d = {x: rnd.choice([1, "s", None]) for x in rnd.sample(["a", "b", "c"], rnd.randrange(1, min(k, 3) + 1))}
+        d2 = dict(d)
+        shape = rnd.choice(["top", "top_rev", "list", "field", "tuple", "twice"])
+        vs = {"top": [{}, d], "top_rev": [d, {}], "list": [[{}, d]], "field": [{"f": {}}, {"f": d}], "tuple": [({},), (d,)],
+              "twice": [{}, d, d2, {}]}[shape]
+        out.append((k, vs))
+    return out
+
+
 def equal_hashables(rnd, n):
     """Sets / dict keys holding values that compare (and hash) equal but have different classes - 1, True, 1.0 and
     tuples of them - typed one after the other in one process: any memoisation keyed by equality shows up."""
@@ -179,6 +194,7 @@ def generate(seed, n_random, with_small_scope, extra_cases=()):
     raw.extend(lying_keys(rnd, max(30, n_random // 40)))
     raw.extend(reserved_keys(rnd, max(40, n_random // 30)))
     raw.extend(long_lists(rnd, max(12, n_random // 100)))
+    raw.extend(empty_with_dicts(rnd, max(30, n_random // 40)))
     raw.extend(subset_typed_dicts(rnd, max(30, n_random // 40)))
     for i in range(n_random):
         k = rnd.choice(KS)
